@@ -17,6 +17,9 @@ seam checks through the trace hook (they localise a failure and tie the stage mo
      their positions (keys seam-select, seam-columns), and the Lean precondition `rawPreconditionB` itself (mkInst succeeds,
      trusted het genotypes, biallelic truth, every read an error-free copy) holds on the traced solver input with the
      generator's truth (`c02.errfree`, key seam-errfree)
+  Aw weights (round 10): every allele observation of every candidate read has the weight the documented behaviour implies — 30 with a
+     reference, the base quality without (key seam-quality; in-process reader: reader-quality); base-quality profiles are a routine
+     dimension of the generator (harness/gen/c02_quals.py); Props.C02.zero_weight_link_witness is the proved reason
   A0 reads of a sample (round 8): every candidate read of sample s in the trace is, by the generator's bookkeeping per input
      file, a read of s (key seam-read-sample); in-process: the real MultiBamReader.fetch(contig, sample) of every run's files
      == the generator's reads of that sample (key fetch-read-sample) == Lean `C02Bam.fetch` (op c02.fetch;
@@ -33,13 +36,16 @@ from harness.gen import sim
 from harness.gen import c02_forms as FORMS
 from harness.gen import c02_layout as LAYOUT
 from harness.gen import c02_contigs as CONTIGS
+from harness.gen import c02_quals as QUALS
 
 RULE = ("generated phasing scenarios with ground truth: 1-2 contigs (plus cases with 2-5 contigs related by length/sequence: equal length, "
         "identical, lengths differing by one, shared prefix/suffix, rotated, near copies; several contig-name styles), 3-14 well separated variants (SNV, MNP, "
         "insertion, deletion), 1-3 samples with own true haplotypes, error-free single and paired reads, depth 2-40 "
         "(above the internal cap of 15), input genotypes in every textual form (0/1, 1/0, 0|1, 1|0 with/without PS, HP values, "
         "mixed within a phase set), options --tag PS/HP, --only-snvs, --sample subsets, --ignore-read-groups "
-        "(single sample); alignment-file layouts (1-6 files: per-sample files, several files per sample, mixed files; 1-3 read "
+        "(single sample); base-quality profiles (constant 30, per-base mixtures of 0/2/30/93, all-Q0 long reads, Q0 at variant columns only, Q0 only "
+        "on the templates bridging two groups of variants, no qualities '*' for all or half of the reads), SNV-only scenarios also with "
+        "--no-reference (positive qualities); alignment-file layouts (1-6 files: per-sample files, several files per sample, mixed files; 1-3 read "
         "groups per file and sample; read-group IDs numbered per file so that one ID names different samples in different "
         "files, shared pool, unique, legacy; header-only decoy @RG lines; read names unique or numbered per file), one CLI "
         "process or 2-3 runs in one interpreter, plus in-process MultiBamReader.fetch queries per sample and one in-process PhasedInputReader reused for "
@@ -178,6 +184,7 @@ def run(ctx):
     model_reqs, model_meta = [], []
     glue_reqs, glue_meta = [], []
     fetch_reqs, fetch_meta = [], []
+    pipe_reqs, pipe_meta = [], []
     try:
         for case in cases:
             import random
@@ -224,6 +231,19 @@ def run(ctx):
                             cig = cig + [(5, r2.randrange(1, 30))]
                         r["cigar"] = cig
                 ctx.dist("clips", "soft/hard clipped reads")
+            # ---- base qualities (round 10; own random stream, the scenarios themselves are unchanged): the reads stay error-free,
+            # only their base qualities vary (all-'!' long reads, Q0 at variant columns, Q0 on the only reads bridging two groups
+            # of variants, no qualities at all, mixtures) — and SNV-only scenarios also run WITHOUT a reference, where the weight
+            # of an observation is the base quality (only positive qualities there: a weight-0 observation carries no phase
+            # information by design, Props.C02.zero_weight_link_witness)
+            r5 = random.Random(case["scenario_seed"] ^ 0xC02A)
+            no_ref = case["no_reference"] if "no_reference" in case else (
+                tuple(kinds) == ("snv",) and not repeats and not case.get("contigs") and r5.random() < 0.35)
+            qprof = case.get("qual_profile") or QUALS.gen_profile(r5, positive_only=no_ref)
+            qinfo = QUALS.apply(r5, sc, qprof)
+            ctx.dist("base_qualities", qprof)
+            ctx.dist("reference_option", "--no-reference" if no_ref else "--reference")
+            ctx.dist("reads_with_q0_at_a_variant", "some" if qinfo["reads_with_q0_at_variant"] else "none")
             d = os.path.join(wd, "run")
             shutil.rmtree(d, ignore_errors=True)
             # optionally hand the reads over as TWO alignment files that reuse the same read names (two sequencing
@@ -243,6 +263,7 @@ def run(ctx):
                     r["name"] = nm
                     file_of[id(r)] = f
             fa, bam, vcf = sc.write(d)
+            QUALS.strip_missing(bam)
             prephased = r2.random() < 0.3
             if prephased:
                 # the input VCF already carries (arbitrary, mostly WRONG) phase information, as after an earlier run or
@@ -289,6 +310,7 @@ def run(ctx):
                 for f in (0, 1):
                     bp = os.path.join(d, f"in{f}.bam")
                     sim.write_bam(bp, sc.contigs, [r for r in sc.reads if file_of[id(r)] == f], sc.read_groups())
+                    QUALS.strip_missing(bp)
                     bams.append(bp)
             tag = r2.choice(["PS", "HP"])
             opts = ["--tag", tag]
@@ -320,6 +342,8 @@ def run(ctx):
                     files, place, info = LAYOUT.gen_layout(r4, sc.samples, reads0)
                     dk = os.path.join(d, f"L{k}")
                     paths = LAYOUT.write_layout(dk, sc.contigs, reads0, files, place)
+                    for p_ in paths:
+                        QUALS.strip_missing(p_)
                     runs.append({"dir": dk, "bams": paths, "file_of": {id(r): pl[0] for r, pl in zip(sc.reads, place)},
                                  "name_of": {id(r): pl[2] for r, pl in zip(sc.reads, place)},
                                  "rg_of": {id(r): pl[1] for r, pl in zip(sc.reads, place)}, "headers": info["files"], "layout": info})
@@ -327,7 +351,7 @@ def run(ctx):
                     opts += ["--ignore-read-groups"]
             for run_ in runs:
                 os.makedirs(run_["dir"], exist_ok=True)
-                run_["args"] = ["phase", "-r", fa, "-o", os.path.join(run_["dir"], "out.vcf")] + opts + [vcf] + run_["bams"]
+                run_["args"] = (["phase", "--no-reference"] if no_ref else ["phase", "-r", fa]) + ["-o", os.path.join(run_["dir"], "out.vcf")] + opts + [vcf] + run_["bams"]
                 run_["trace"] = os.path.join(run_["dir"], "trace.jsonl")
                 ctx.dist("alignment_files", len(run_["bams"]))
                 if run_["layout"]:
@@ -343,7 +367,8 @@ def run(ctx):
             for ri, (run_, (rc, err, trace)) in enumerate(zip(runs, results)):
               file_of, name_of, args = run_["file_of"], run_["name_of"], run_["args"]
               ctx.evaluated()
-              desc = {**case, "args": args[1:], "samples": sc.samples, "kinds": list(kinds), "deep": deep, "gt_forms": gt_forms}
+              desc = {**case, "args": args[1:], "samples": sc.samples, "kinds": list(kinds), "deep": deep, "gt_forms": gt_forms,
+                      "qual_profile": qprof, "qualities": qinfo, "no_reference": no_ref}
               if run_["layout"]:
                   desc["layout"] = run_["layout"]
               if contig_info:
@@ -384,10 +409,15 @@ def run(ctx):
                   ctx.nontrivial(case["scenario_seed"])
               # ---- seam checks on the trace
               truth_of_read = {}
+              alns_of = {}
               for r in sc.reads:
                   truth_of_read.setdefault((file_of.get(id(r), 0), name_of.get(id(r), r["name"])), (r["sample"], r["hap"]))
+                  alns_of.setdefault((file_of.get(id(r), 0), name_of.get(id(r), r["name"]), r["chrom"]), []).append(r)
+              vcf_cache = {}
               for tr in trace:
                   chrom = tr["chrom"] if "chrom" in tr else tr["chromosome"]
+                  pipeline_tie(ctx, sc, run_, tr, chrom, desc, vcf, only_snvs, no_ref, "--ignore-read-groups" in opts, vcf_cache,
+                               pipe_reqs, pipe_meta)
                   posidx = {v.pos: i for i, v in enumerate(sc.variants[chrom])}
                   for rd in tr["all_reads"]:
                       if (rd["source_id"], rd["name"]) not in truth_of_read:
@@ -401,6 +431,22 @@ def run(ctx):
                           if hv[posidx[pos]] != al:
                               ctx.fail(f"seam A: read {rd['name']} (error-free copy of haplotype {h} of {s}) was given allele {al} "
                                        f"at {chrom}:{pos}, its haplotype carries {hv[posidx[pos]]}", desc, key="seam-allele")
+                  # seam A, weights (round 10): the weight of every allele observation of every candidate read is what the
+                  # documented behaviour implies — with a reference the constant 30 of the re-alignment, without one the base
+                  # quality of the base aligned to the variant (30 when the alignment has no qualities).  A weight-0 observation
+                  # would link variants for `find_components` without carrying phase information (zero_weight_link_witness)
+                  bad_q = None
+                  for s, cand in tr["candidates"].items():
+                      for r in cand["reads"]:
+                          for pos, al, q in r["variants"]:
+                              want = {QUALS.expected_weight(a, pos, not no_ref) for a in alns_of.get((r["source_id"], r["name"], chrom), [])} - {None}
+                              if want and q not in want and bad_q is None:
+                                  bad_q = (r["name"], r["source_id"], pos, q, sorted(want))
+                  if bad_q is not None:
+                      ctx.fail(f"seam A (weights): read {bad_q[0]!r} of input file {bad_q[1]} observes the variant at {chrom}:{bad_q[2]} with weight "
+                               f"{bad_q[3]}; " + ("with a reference every re-aligned allele has the weight 30" if not no_ref else
+                                                 "without a reference the weight is the base quality at the variant")
+                               + f" (expected {bad_q[4]}); base-quality profile {qprof}", desc, key="seam-quality")
                   for s, cand in tr["candidates"].items():
                       # seam A0 (read -> sample): a read belongs to the sample named by the @RG line of ITS OWN file whose ID is
                       # the read's RG tag; the generator knows whose haplotype every read of every file copies
@@ -467,7 +513,7 @@ def run(ctx):
             # reads of that sample, per file (oracle), == Lean `C02Bam.fetch` (Props.C02.fetched_reads_are_the_samples /
             # fetch_none_iff)
             files, place, info = LAYOUT.gen_layout(r4, sc.samples, reads0)
-            extra = {"bams": LAYOUT.write_layout(os.path.join(d, "LX"), sc.contigs, reads0, files, place),
+            extra = {"bams": [QUALS.strip_missing(p_) or p_ for p_ in LAYOUT.write_layout(os.path.join(d, "LX"), sc.contigs, reads0, files, place)],
                      "file_of": {id(r): pl[0] for r, pl in zip(sc.reads, place)}, "name_of": {id(r): pl[2] for r, pl in zip(sc.reads, place)},
                      "rg_of": {id(r): pl[1] for r, pl in zip(sc.reads, place)}, "headers": info["files"], "layout": info}
             fetch_stream(ctx, sc, [extra] + runs, case, fetch_reqs, fetch_meta)
@@ -490,6 +536,34 @@ def run(ctx):
         got = sorted([list(x) for x in got]) if isinstance(got, list) else got
         if got != expect:
             ctx.disagree("c02.fetch (reads of a sample: MultiBamReader.fetch vs Lean C02Bam.fetch) " + what, desc, expect, got)
+    # ---- round 10: the composed stage model (C06 reader -> ReadSet::sort -> len >= 2 -> C07 selection -> solver input) on the
+    # alignments of the generated BAM files against the traced candidates / selected reads / solver columns
+    limit = 70 if ctx.quick else 10 ** 9
+    ctx.dist("pipeline_tie_requests", min(len(pipe_reqs), limit) // 10 * 10)
+    for (desc, what, want), req in list(zip(pipe_meta, pipe_reqs))[:limit]:
+        ans = ctx.model.ask_many([req])[0]
+        if not isinstance(ans, dict) or ans.get("err") is not None:
+            ctx.disagree("c02.pipeline (composed stage model raised / bad input) " + what, desc, "reads", ans if not isinstance(ans, dict) else ans.get("err"))
+            continue
+        if ans.get("cands") != want["cands"]:
+            diff = [x for x in want["cands"] if x not in ans.get("cands", [])][:2], [x for x in ans.get("cands", []) if x not in want["cands"]][:2]
+            ctx.disagree("c02.pipeline candidates (alignments -> C06 reader -> sort -> len >= 2 vs traced candidates) " + what, desc,
+                         {"n": len(want["cands"]), "only_impl": diff[0]}, {"n": len(ans.get("cands", [])), "only_model": diff[1]})
+            continue
+        if ans.get("sel_reads") != want["sel_reads"]:
+            ctx.disagree("c02.pipeline selected reads (model candidates at the traced indices vs traced selected reads) " + what, desc,
+                         len(want["sel_reads"]), len(ans.get("sel_reads") or []))
+        if ans.get("sel_positions") != want["positions"]:
+            ctx.disagree("c02.pipeline solver columns (defaultPositions of the kept reads vs accessible_positions) " + what, desc,
+                         want["positions"][:10], (ans.get("sel_positions") or [])[:10])
+        if len(ans["sel"]) == len(ans["cands"]):
+            ctx.dist("pipeline_tie_selection", "model keeps every candidate")
+            if want["sel"] != ans["sel"]:
+                ctx.disagree("c02.pipeline selection (coverage below the cap everywhere: every candidate is kept) " + what, desc, want["sel"], ans["sel"])
+        else:
+            ctx.dist("pipeline_tie_selection", "model drops reads (tie choices: compared by C07)")
+            if len(want["sel"]) == len(want["cands"]):
+                ctx.disagree("c02.pipeline selection (model drops candidates, whatshap kept all) " + what, desc, len(want["sel"]), ans["sel"])
     # glue requests are small (answers: a few booleans / the kept reads): one at a time as well, for the same reason
     ctx.dist("glue_requests", min(len(glue_reqs), 400) // 50 * 50)
     for (desc, (what, expect, sample)), ans in zip(glue_meta, (ctx.model.ask_many([r])[0] for r in glue_reqs)):
@@ -501,6 +575,65 @@ def run(ctx):
         elif not (isinstance(ans, dict) and ans.get("ok") is True):
             ctx.fail(f"seams A-C: the traced solver input of {sample} does not satisfy the precondition of the solver theorems "
                      f"(Lean rawPreconditionB: {ans})", desc, key="seam-errfree")
+
+
+def bam_sources(bams, chrom):
+    """the alignment records of one contig as pysam delivers them (independent of whatshap), in the shape of `c06.read` / `c02.pipeline`"""
+    import pysam
+    srcs = []
+    for b in bams:
+        with pysam.AlignmentFile(b) as af:
+            rgs = [[g["ID"], g.get("SM")] for g in af.header.to_dict().get("RG", [])]
+            alns = []
+            for a in af.fetch(chrom):
+                alns.append({"name": a.query_name, "flag": a.flag, "mapq": a.mapping_quality, "rg": a.get_tag("RG") if a.has_tag("RG") else None,
+                             "start": a.reference_start, "cigar": [list(x) for x in a.cigartuples] if a.cigartuples else None,
+                             "query": a.query_sequence, "quals": list(a.query_qualities) if a.query_qualities is not None else None,
+                             "bx": "", "hp": -1, "ps": -1})
+            srcs.append({"rgs": rgs, "alns": alns})
+    return srcs
+
+
+def pipeline_tie(ctx, sc, run_, tr, chrom, desc, vcf, only_snvs, no_ref, ignore_rg, cache, reqs, meta):
+    """one `c02.pipeline` request per single-sample trace record: the alignments of the run's BAM files, the heterozygous input
+    variants of the sample, `whatshap phase`'s defaults (mapq 20, overhang 10, no supplementary), the traced per-sample cap, the
+    observed order of the candidates as the hash order of `ReadSet::sort`, the traced selected indices"""
+    fam = tr["family"]
+    if len(fam) != 1 or tr.get("algorithm", "whatshap") != "whatshap":
+        return
+    s = fam[0]
+    if "vcf" not in cache:
+        cache["vcf"] = sim.read_vcf(vcf)
+    _, vsamples, vrecs = cache["vcf"]
+    si = vsamples.index(s)
+    vs = []
+    for rec in vrecs:
+        if rec["chrom"] != chrom:
+            continue
+        if only_snvs and not (len(rec["ref"]) == 1 and all(len(a) == 1 for a in rec["alts"])):
+            continue
+        gt = rec["calls"][si].get("GT")
+        if gt is None or gt[0] is None or None in gt[0] or len(set(gt[0])) < 2:
+            continue
+        vs.append([rec["pos"], rec["ref"], list(rec["alts"])])
+    if ("src", chrom) not in cache:
+        cache[("src", chrom)] = bam_sources(run_["bams"], chrom)
+    cand = tr["candidates"][s]
+    index = {}
+    for i, r in enumerate(cand["reads"]):
+        index.setdefault((r["name"], r["source_id"]), i)
+    sel = [index.get((r["name"], r["source_id"])) for r in cand["selected"]]
+    if None in sel:
+        return
+    reqs.append({"op": "c02.pipeline", "cfg": {"mapq": 20, "duplicates": False, "supplementary": False, "threshold": 100000, "overhang": 10,
+                                                "affine": None},
+                 "sources": cache[("src", chrom)], "sample": None if ignore_rg else s, "variants": vs,
+                 "reference": None if no_ref else sc.contigs[chrom], "cap": tr["max_coverage_per_sample"],
+                 "order": [[r["source_id"], r["name"]] for r in cand["reads"]], "sel": sel, "asis": []})
+    meta.append((desc, f"{chrom} {s}", {"cands": [[r["source_id"], r["name"], [list(v) for v in r["variants"]]] for r in cand["reads"]],
+                                         "sel": sel, "sel_reads": [[list(v) for v in r["variants"]] for r in cand["selected"]],
+                                         "positions": list(tr["accessible_positions"])}))
+    ctx.dist("pipeline_tie", "with reference" if not no_ref else "without reference")
 
 
 def fetch_stream(ctx, sc, runs, case, reqs, meta):
@@ -592,6 +725,10 @@ def reader_stream(ctx, sc, runs, fa, vcf, case):
                 readset, _ = pir.read(c, tables[c].variants, s, read_vcf=False)
                 posidx = {v.pos: i for i, v in enumerate(sc.variants[c])}
                 got = sorted((rd.source_id, rd.name, tuple((v.position, v.allele) for v in rd)) for rd in readset)
+                badq = [(rd.name, v.position, v.quality) for rd in readset for v in rd if v.quality != 30]
+                if badq:
+                    ctx.fail(f"query {qi + 1} ({c}, {s}): with a reference every re-aligned allele has the weight 30, read {badq[0][0]!r} "
+                             f"observes {c}:{badq[0][1]} with weight {badq[0][2]} ({len(badq)} such observations)", desc, key="reader-quality")
                 if (c, s) in seen and seen[(c, s)] != got:
                     ctx.fail(f"query {qi + 1} ({c}, {s}) repeated on the same reader gave other reads/alleles than the first time "
                              f"({len(seen[(c, s)])} vs {len(got)} reads; first difference: "
